@@ -76,10 +76,6 @@ RATIOS = [(1, 20), (19, 20), (1, 2), (3, 10), (9, 10), (2, 5), (3, 4), (1, 3), (
 
 # ==================================================================================================
 # worker: the only place where the real code runs
-class _Rec:
-    pass
-
-
 def _worker_main():  # pragma: no cover - runs in the subprocess
     real_out = os.fdopen(os.dup(1), "w")
     os.dup2(2, 1)  # stray prints of the library go to stderr
@@ -166,7 +162,12 @@ def _worker_main():  # pragma: no cover - runs in the subprocess
         res: dict = {}
         if case["level"] == "split":
             seed = tuple(case["seed"]) if case["seed"] is not None else None
-            i, t = sp.split_method(masks[0], acss[0] if acss is not None else None, seed)
+            if case.get("raw"):     # the documented rejection lives in the underscore methods
+                kw2 = {"std_scale": sp.std_scale} if case["kind"] == "gauss" else {}
+                fn = sp._gaussian_split if case["kind"] == "gauss" else sp._uniform_split
+                i, t = fn(masks[0].squeeze(), seed=seed, acs_mask=None, **kw2)
+            else:
+                i, t = sp.split_method(masks[0], acss[0] if acss is not None else None, seed)
             res["shape"] = [list(i.shape), list(t.shape)]
             res["dtype"] = [str(i.dtype), str(t.dtype)]
             res["input"] = [[int(v) for v in i.reshape(-1).tolist()]]
@@ -783,7 +784,7 @@ def _malformed_cases(rng):
     out = []
     for kind in ("gauss", "uniform"):
         c = _gen_case(rng, kind, "split")
-        c["keep"], c["acs"], c["twice"] = 1, None, 0
+        c["keep"], c["acs"], c["twice"], c["raw"] = 1, None, 0, 1
         out.append(c)
     return out
 
